@@ -165,6 +165,9 @@ func CheckCase(cs Case) *ev.Violation {
 	// mutate behind the cell's back: nothing is re-read until asked
 	applyMut(live, cs.Item, *cs.Mut)
 	applyMut(live2, cs.Item, *cs.Mut)
+	// every read-only accessor, debugging dump and formatter may run in between: none of them is an Update
+	readOnly(&c, nil)
+	readOnly(tc, t)
 	if v := observe("after mutation, before Update", &c, want, live.V); v != nil {
 		return v
 	}
@@ -205,6 +208,23 @@ func CheckCase(cs Case) *ev.Violation {
 	// a second Update is idempotent
 	c.Update()
 	return observe("after second Update", &c, newWant, live.V)
+}
+
+// readOnly exercises everything that reads a cell or table without being asked to update it.
+func readOnly(c *tabular.Cell, t *tabular.ATable) {
+	_ = fmt.Sprintf("%#v|%v|%s", c, c, c)
+	_ = c.GoString()
+	_, _, _, _ = c.Lines(), c.Height(), c.TerminalCellWidth(), c.Item()
+	_ = tabular.NewCell(*c) // wrapping the cell in another cell reads its text, not its item
+	if t != nil {
+		_ = fmt.Sprintf("%#v", t)
+		for _, r := range t.AllRows() {
+			_ = fmt.Sprintf("%#v", r)
+			_ = r.Cells()
+		}
+		_, _ = t.Headers(), t.NColumns()
+		_ = t.Errors()
+	}
 }
 
 // allShow: the renderers show the same text for a one-cell table.
